@@ -27,8 +27,8 @@ RULE = ("histories: screens with 1-8 plates (1..14 rows quick, ..40 thorough; ev
         "plate-uniform mask / all hidden / no mask; 25% with a mapping batchie made for a superset), then 1..8 (thorough ..20) "
         "steps chosen while running from: m mask_screen, u unmask_screen, s save_h5+load_h5, r reveal_plates, c reveal_plate.main() "
         "on a saved file (model: s+r+s), reveal requests mixing hidden, already observed, repeated, unknown (99, -1, n_plates, 10^6) "
-        "ids, all-zero / NaN plates, only-unknown and empty lists; extract_screen_metadata.main() on the saved screen before/after half of the "
-        "reveals (always in replay), at 1/6 of the other steps and at the end; a refused reveal ends the history sent to the model, "
+        "ids, all-zero / NaN plates, only-unknown and empty lists; extract_screen_metadata.main() on the saved screen before/after half (thorough: 35%) of the "
+        "reveals (always in replay), at a third of that rate at other steps and at the end; a refused reveal ends the history sent to the model, "
         "the run continues from the unchanged screen as a further history; exhaustive part: every subset of plate ids from a masked screen (<= 5 plates), "
         "every pair of subsets for <= 3 plates.  constructor stream: mixed plate / observations without mask / nothing / mask "
         "without observations / valid uniform mask.  set_observed stream: random selections (right, wrong length), values of "
@@ -749,7 +749,7 @@ def setobs_line(case):
 # ------------------------------------------------------------------------------------------------
 
 def one_history(ctx, res, tie, tmp, case, rng=None, n_steps=0, where="C12:hist"):
-    trace, info = run_history(case, tmp, res, rng=rng, n_steps=n_steps)
+    trace, info = run_history(case, tmp, res, rng=rng, n_steps=n_steps, meta_p=0.5 if ctx.tier == "quick" else 0.35)
     res.evaluations += 1
     res.count("history.steps", len(trace) - 1)
     res.count("plates.%d" % len(set(case["raw"]["pnames"])))
@@ -780,10 +780,10 @@ def run(ctx, res):
     try:
         # ---- 1. random histories ----------------------------------------------------------------
         for t in range(n_hist):
-            big = thorough and rng.random() < 0.25
+            big = thorough and rng.random() < 0.2
             raw, kind = gen_hist_raw(rng, rng.randint(1, 40 if big else 14))
             case = {"kind": "hist", "raw": raw, "obs_bits": obs_bits_list(raw), "ops": []}
-            n_steps = rng.randint(1, 20 if (thorough and rng.random() < 0.3) else 8)
+            n_steps = rng.randint(1, 20 if (thorough and rng.random() < 0.2) else 8)
             res.count("screen." + kind)
             res.count("mask.%s" % ("none" if raw["mask"] is None else "all-hidden" if not any(raw["mask"]) else "some-observed"))
             trace, info = one_history(ctx, res, tie, tmp, case, rng=rng, n_steps=n_steps)
